@@ -22,6 +22,7 @@ def main():
     ap.add_argument("--tier", default="quick")
     ap.add_argument("--props", default="")
     ap.add_argument("--all-checks", action="store_true", help="run every registered check, not only the seed's property")
+    ap.add_argument("--confirm", action="store_true", help="only confirm the seed: baseline test suite with the patch (183 stable tests must pass), demo fails with / passes without the patch; result recorded in meta.json")
     ap.add_argument("seeds", nargs="*")
     a = ap.parse_args()
     seeds = a.seeds or sorted(os.path.join("seeded", d) for d in os.listdir(os.path.join(ROOT, "seeded"))
@@ -51,6 +52,24 @@ def main():
             env = dict(os.environ, PYTHONPATH=wt, PYTHONHASHSEED="0")
             d = subprocess.run(["/venv/bin/python", os.path.join(sd, demo)], capture_output=True, text=True,
                                env=env, timeout=600, cwd=wt)
+            if a.confirm:
+                t = subprocess.run("/venv/bin/python -m pytest -q -p no:cacheprovider --timeout=900 2>&1 | tail -1",
+                                   shell=True, capture_output=True, text=True, env=env, cwd=wt, timeout=1800)
+                m = re.search(r"(\d+) failed, (\d+) passed", t.stdout)
+                sh(f"git -C {wt} checkout -- .")
+                d0 = subprocess.run(["/venv/bin/python", os.path.join(sd, demo)], capture_output=True, text=True,
+                                    env=env, timeout=600, cwd=wt)
+                meta["confirmed_by_coordinator"] = {
+                    "base_commit": sh("git -C /repo rev-parse --short HEAD").stdout.strip(),
+                    "patch_applies": True, "imports": True,
+                    "baseline_suite_with_patch": t.stdout.strip()[-120:],
+                    "stable_tests_pass_with_patch": bool(m and int(m.group(2)) >= 183 and int(m.group(1)) <= 25),
+                    "demo_exit_with_patch": d.returncode, "demo_exit_without_patch": d0.returncode,
+                    "ran": "git worktree of /repo HEAD under /tmp; git apply patch.diff; pytest full suite; demo.py with and without the patch; worktree removed"}
+                json.dump(meta, open(os.path.join(sd, "meta.json"), "w"), indent=1)
+                c = meta["confirmed_by_coordinator"]
+                print(f"{name}: confirm tests_ok={c['stable_tests_pass_with_patch']} demo_with={d.returncode} demo_without={d0.returncode}", flush=True)
+                continue
             entry = {"demo_exit_with_patch": d.returncode, "checks": {}}
             for p in props:
                 if p not in registered:
